@@ -185,7 +185,7 @@ def run(ctx):
     # ---------------------------------------------------------------- R9
     r = ctx.rule("C02-R9", "ORDER", "the test 'a value was given to an option that accepts none' sees the value as given: "
                  "no assignment of None to it can reach the test except under an identity test with a non-string "
-                 "sentinel (an empty attached value, '--flag=', is still a value)", reference=1)
+                 "sentinel (an empty attached value, '--flag=', is still a value)", reference=2)
     value_as_given_rule(ctx, r, parser)
     # ---------------------------------------------------------------- R10
     from .c01 import sentinel_loops
@@ -231,7 +231,7 @@ def run(ctx):
 
     # ---------------------------------------------------------------- R13
     r = ctx.rule("C02-R13", "EXC", "what is raised is an exception object: every `raise f(...)` whose f is a function of the package (an error factory) gets a value back on "
-                 "every path of f - no path of a factory falls off its end or returns nothing (`raise None` is a TypeError, which escapes in strict and lenient mode alike)", reference=20)
+                 "every path of f - no path of a factory falls off its end or returns nothing (`raise None` is a TypeError, which escapes in strict and lenient mode alike)", reference=15)
     for fn in [f for f in p.all_functions() if f.module.name.startswith(("clikit.args", "clikit.api.args", "clikit.resolver", "clikit.api.resolver", "clikit.api.command"))]:
         for rz in q.raises(fn):
             if not isinstance(rz.exc, ast.Call):
